@@ -145,7 +145,9 @@ def main():
         json.dump(meta, open(mp, "w"), indent=1)
         if not a.keep:
             sh("git -C /repo worktree remove --force %s" % wt)
-            shutil.rmtree(os.path.join(ROOT, ".build", "mods"), ignore_errors=True)
+            # only this worktree's generated go.mod files: other evaluations may be running
+            import hashlib
+            shutil.rmtree(os.path.join(ROOT, ".build", "mods", hashlib.sha1(os.path.abspath(wt).encode()).hexdigest()[:10]), ignore_errors=True)
     print(json.dumps({k: meta.get(k) for k in ("property", "name", "touched", "demonstration", "existing_tests_pass", "checks", "caught")}, indent=1))
     return 0
 
